@@ -11,14 +11,15 @@ import (
 
 func liberrorsAuth() error { return liberrors.ErrServerAuth{} }
 
-// NewClient returns a client with short timeouts suited to loopback cases.
+// NewClient returns a well-behaved client for cases in which its timeouts are not the subject: they are generous,
+// so that a machine busy with other work does not turn a slow exchange into a verdict (exchanges normally take milliseconds).
 func NewClient(scheme, host string, proto *gortsplib.Protocol) *gortsplib.Client {
 	return &gortsplib.Client{
 		Scheme:            scheme,
 		Host:              host,
 		Protocol:          proto,
-		ReadTimeout:       2 * time.Second,
-		WriteTimeout:      2 * time.Second,
+		ReadTimeout:       10 * time.Second,
+		WriteTimeout:      10 * time.Second,
 		TLSConfig:         &tls.Config{InsecureSkipVerify: true},
 		OnTransportSwitch: func(error) {},
 	}
@@ -30,10 +31,18 @@ func protoPtr(p gortsplib.Protocol) *gortsplib.Protocol { return &p }
 func within(d time.Duration, what string, f func()) error {
 	done := make(chan struct{})
 	go func() { defer close(done); f() }()
-	select {
-	case <-done:
-		return nil
-	case <-time.After(d):
+	stall := newStallDetector()
+	defer stall.close()
+	for attempt := 0; ; attempt++ {
+		select {
+		case <-done:
+			return nil
+		case <-time.After(d):
+		}
+		// a bound that expired while this very process was not being scheduled says nothing about the library
+		if late := stall.take(); late > 300*time.Millisecond && attempt < 4 {
+			continue
+		}
 		return fmt.Errorf("%s did not return within %v; library goroutines:\n%s", what, d, stacksSummary())
 	}
 }
